@@ -143,7 +143,7 @@ var ignoredKeywords = map[string]bool{"description": true, "$schema": true, "$id
 func newSchemaGrammar(raw []byte) (*schemaGrammar, *Node) {
 	var doc map[string]any
 	if err := json.Unmarshal(raw, &doc); err != nil {
-		vx.Fatalf("schema is not JSON: %v", err)
+		fatalf("schema is not JSON: %v", err)
 	}
 	sg := &schemaGrammar{memo: map[string]*Node{}, unhandled: map[string]bool{}}
 	sg.defs, _ = doc["$defs"].(map[string]any)
@@ -167,7 +167,7 @@ func (sg *schemaGrammar) node(raw any) *Node {
 			}
 			def, ok := sg.defs[name]
 			if !ok {
-				vx.Fatalf("schema: dangling $ref %q", ref)
+				fatalf("schema: dangling $ref %q", ref)
 			}
 			n := &Node{Def: name}
 			sg.memo[name] = n
@@ -178,7 +178,7 @@ func (sg *schemaGrammar) node(raw any) *Node {
 		sg.fill(n, v)
 		return n
 	}
-	vx.Fatalf("schema: unexpected schema value %T", raw)
+	fatalf("schema: unexpected schema value %T", raw)
 	return nil
 }
 
@@ -272,7 +272,13 @@ func (gg *goGrammar) node(t reflect.Type) *Node {
 	for _, it := range []reflect.Type{yamlUnmarshalerT, textUnmarshalerT, oldYamlUnmarshalerT} {
 		if t.Implements(it) || reflect.PointerTo(t).Implements(it) {
 			gg.custom[t.String()] = true
-			return &Node{Kind: kAny, Def: defName(t)}
+			if t.Kind() != reflect.Struct {
+				return &Node{Kind: kAny, Def: defName(t)}
+			}
+			// A struct that decodes itself is still presumed to speak the
+			// keys of its fields (that is also what the schema generator
+			// publishes for it); executing the loader decides whether it does,
+			// and whether it stays strict inside its own decoding.
 		}
 	}
 	switch t.Kind() {
@@ -300,7 +306,7 @@ func (gg *goGrammar) node(t reflect.Type) *Node {
 	case reflect.Float32, reflect.Float64:
 		return &Node{Kind: kNum}
 	}
-	vx.Fatalf("reflection: unsupported kind %s (%s)", t.Kind(), t)
+	fatalf("reflection: unsupported kind %s (%s)", t.Kind(), t)
 	return nil
 }
 
@@ -340,7 +346,7 @@ func (gg *goGrammar) fields(n *Node, t reflect.Type) {
 				n.Closed = false
 				n.Elem = gg.node(ft.Elem())
 			default:
-				vx.Fatalf("reflection: inline field %s.%s of kind %s", t, f.Name, ft.Kind())
+				fatalf("reflection: inline field %s.%s of kind %s", t, f.Name, ft.Kind())
 			}
 			continue
 		}
@@ -470,26 +476,20 @@ func (p *kpath) parent() string {
 // route: the prefix up to and including the first key after the first list
 // (the rule kind / input kind / language), or the first key.
 func (p *kpath) route() string {
-	seenList := false
+	firstList := -1
 	for i, s := range p.steps {
 		if s.T == 'i' {
-			seenList = true
-			continue
+			firstList = i
+			break
 		}
-		if s.T == 'k' && (seenList || i == 0 && !p.hasListLater()) {
+	}
+	for i, s := range p.steps {
+		if s.T == 'k' && i > firstList {
 			q := &kpath{steps: p.steps[:i+1]}
 			return q.String()
 		}
 	}
 	return p.String()
-}
-func (p *kpath) hasListLater() bool {
-	for _, s := range p.steps {
-		if s.T == 'i' {
-			return true
-		}
-	}
-	return false
 }
 
 // position: "<Def>" of the end node if it is a definition, else "<ParentDef>.<key>[suffix]".
@@ -607,7 +607,7 @@ func yamlLines(v any) []string {
 	case *OMap:
 		for _, k := range x.keys {
 			key := k
-			if !plainKey.MatchString(k) {
+			if !plainKey.MatchString(k) && k != "<<" { // "<<" stays plain: a YAML merge key
 				key = strconv.Quote(k)
 			}
 			if s, ok := yamlScalar(x.vals[k]); ok {
@@ -630,7 +630,7 @@ func yamlLines(v any) []string {
 			}
 		}
 	default:
-		vx.Fatalf("yaml writer: unsupported value %T", v)
+		fatalf("yaml writer: unsupported value %T", v)
 	}
 	return out
 }
@@ -805,7 +805,7 @@ func (fk *fileKind) init(repo string, bound int) {
 	fk.schemaPath = filepath.Join(repo, "schemas", fk.Name+".json")
 	raw, err := os.ReadFile(fk.schemaPath)
 	if err != nil {
-		vx.Fatalf("reading published schema: %v", err)
+		fatalf("reading published schema: %v", err)
 	}
 	c := jsonschema.NewCompiler()
 	c.Draft = jsonschema.Draft2020
@@ -813,16 +813,16 @@ func (fk *fileKind) init(repo string, bound int) {
 	// the $id is dropped for compilation only so that nothing is ever resolved remotely
 	var asMap map[string]any
 	if err := json.Unmarshal(raw, &asMap); err != nil {
-		vx.Fatalf("%s: %v", fk.schemaPath, err)
+		fatalf("%s: %v", fk.schemaPath, err)
 	}
 	delete(asMap, "$id")
 	noID, _ := json.Marshal(asMap)
 	if err := c.AddResource(url, bytes.NewReader(noID)); err != nil {
-		vx.Fatalf("%s: %v", fk.schemaPath, err)
+		fatalf("%s: %v", fk.schemaPath, err)
 	}
 	fk.schema, err = c.Compile(url)
 	if err != nil {
-		vx.Fatalf("compiling %s: %v", fk.schemaPath, err)
+		fatalf("compiling %s: %v", fk.schemaPath, err)
 	}
 	var sroot *Node
 	fk.sg, sroot = newSchemaGrammar(raw)
@@ -850,7 +850,7 @@ func normErr(s string) string {
 func runLoader(fk *fileKind, text string) (accepted bool, class string, msg string) {
 	path := filepath.Join(scratch, fmt.Sprintf("%d.yaml", fileSeq.Add(1)))
 	if err := os.WriteFile(path, []byte(text), 0o600); err != nil {
-		vx.Fatalf("scratch write: %v", err)
+		fatalf("scratch write: %v", err)
 	}
 	defer os.Remove(path)
 	loads.Add(1)
@@ -902,7 +902,7 @@ func plain(v any) any {
 func runSchema(fk *fileKind, text string) (accepted bool, class string, msg string, asJSON any) {
 	var v any
 	if err := yaml.Unmarshal([]byte(text), &v); err != nil {
-		vx.Fatalf("generated document is not YAML: %v\n%s", err, text)
+		fatalf("generated document is not YAML: %v\n%s", err, text)
 	}
 	v = plain(v)
 	err := fk.schema.Validate(v)
@@ -984,7 +984,7 @@ func buildCases(fks []*fileKind) []*docCase {
 			base, _ := build(p)
 			baseY := toYAML(base)
 			common := func(family, id string) *docCase {
-				return &docCase{Family: family, FK: fk.Name, ID: id, Path: ps, fk: fk, p: p, size: len(p.steps),
+				return &docCase{Family: family, FK: fk.Name, ID: id, Path: ps, fk: fk, p: p, size: len(p.steps) * 8,
 					DeclS: e.s != nil, DeclG: e.g != nil,
 					LoaderClosed: e.g != nil && e.g.Kind == kObj && e.g.Closed,
 					SchemaClosed: e.s != nil && e.s.Kind == kObj && e.s.Closed}
@@ -1025,18 +1025,25 @@ func buildCases(fks []*fileKind) []*docCase {
 				if pos == "" {
 					pos = p.lastKeyPos()
 				}
-				d, end := build(p)
-				end.(*OMap).Set(unknownKey, 1)
-				c := common("inject", fmt.Sprintf("inject:%s:%s+%s", fk.Name, ps, unknownKey))
-				c.YAML, c.Base, c.Key = toYAML(d), baseY, unknownKey
-				c.kindAt = fk.Name + ":" + p.route() + ":" + pos
-				out = append(out, c)
+				for _, iv := range injectVariants(e) {
+					d, end := build(p)
+					iv.apply(end.(*OMap))
+					fam := "inject"
+					if iv.merge {
+						fam = "merge"
+					}
+					c := common(fam, fmt.Sprintf("%s:%s:%s+%s", fam, fk.Name, ps, iv.name))
+					c.YAML, c.Base, c.Key = toYAML(d), baseY, iv.name
+					c.kindAt = fk.Name + ":" + p.route() + ":" + pos
+					c.size = len(p.steps)*8 + iv.rank
+					out = append(out, c)
+				}
 				// aliases: spellings a user coming from the Go source / JSON might try
 				if e.g != nil && e.g.Kind == kObj {
 					seen := map[string]bool{}
 					for _, k := range e.g.keys() {
 						gn := e.g.GoName[k]
-						for _, alias := range []string{gn, strings.ToLower(gn)} {
+						for _, alias := range []string{gn, strings.ToLower(gn), lowerFirst(gn), strings.ToUpper(k), strings.ReplaceAll(k, "_", "-"), strings.ReplaceAll(k, "_", "")} {
 							if alias == "" || seen[alias] || e.hasKey(alias) {
 								continue
 							}
@@ -1045,6 +1052,7 @@ func buildCases(fks []*fileKind) []*docCase {
 							end.(*OMap).Set(alias, minimal(pnode{g: e.g.Props[k]}, e.def()+"."+k, true))
 							c := common("alias", fmt.Sprintf("alias:%s:%s+%s", fk.Name, ps, alias))
 							c.YAML, c.Base, c.Key = toYAML(d), baseY, alias
+							c.size = len(p.steps)*8 + 6
 							c.kindAt = fk.Name + ":" + p.route() + ":" + pos
 							out = append(out, c)
 						}
@@ -1074,6 +1082,8 @@ func buildCases(fks []*fileKind) []*docCase {
 				fam := "noaction"
 				if strings.Contains(f.name, ": null") {
 					fam = "nullaction"
+				} else if f.name == "null" {
+					fam = "nullentry"
 				}
 				out = append(out, &docCase{Family: fam, FK: fk.Name, ID: fmt.Sprintf("%s:%s:%s[] = %s", fam, fk.Name, list, f.name),
 					Path: list + "[]", YAML: toYAML(d), Base: baseY, Key: f.name, fk: fk, size: len(f.name),
@@ -1084,10 +1094,48 @@ func buildCases(fks []*fileKind) []*docCase {
 	return out
 }
 
+type injectVariant struct {
+	name  string
+	rank  int
+	merge bool
+	apply func(m *OMap)
+}
+
+func lowerFirst(s string) string {
+	if s == "" {
+		return s
+	}
+	return strings.ToLower(s[:1]) + s[1:]
+}
+
+// injectVariants: the undeclared key with each value shape, appended or put
+// first, and (merge) brought in through a YAML merge key.
+func injectVariants(e pnode) []injectVariant {
+	front := func(m *OMap, k string, v any) {
+		m.Set(k, v)
+		m.keys = append([]string{k}, m.keys[:len(m.keys)-1]...)
+	}
+	return []injectVariant{
+		{name: unknownKey, rank: 0, apply: func(m *OMap) { m.Set(unknownKey, 1) }},
+		{name: unknownKey + "=null", rank: 1, apply: func(m *OMap) { m.Set(unknownKey, nil) }},
+		{name: unknownKey + "={a: 1}", rank: 2, apply: func(m *OMap) { m.Set(unknownKey, newOMap("a", 1)) }},
+		{name: unknownKey + "=[1]", rank: 3, apply: func(m *OMap) { m.Set(unknownKey, &List{items: []any{1}}) }},
+		{name: unknownKey + " (first key)", rank: 4, apply: func(m *OMap) { front(m, unknownKey, 1) }},
+		{name: "<<: {" + unknownKey + ": 1}", rank: 5, merge: true, apply: func(m *OMap) { m.Set("<<", newOMap(unknownKey, 1)) }},
+	}
+}
+
+func fatalf(format string, a ...any) {
+	if scratch != "" {
+		os.RemoveAll(scratch)
+	}
+	vx.Fatalf(format, a...)
+}
+
 func setEnd(root any, p *kpath, v any) {
 	// replace the value at the end of p (p has at least one step when called on a non-root)
 	if len(p.steps) == 0 {
-		vx.Fatalf("setEnd on root")
+		fatalf("setEnd on root")
 	}
 	cur := root
 	for i, st := range p.steps {
@@ -1214,8 +1262,14 @@ func judgeInjected(c *docCase, loaderBaseOK, schemaBaseOK bool) []verdict {
 func judgeNoAction(c *docCase) []verdict {
 	if c.L {
 		clause := "no-action-entry-accepted"
-		if c.Family == "nullaction" {
+		switch c.Family {
+		case "nullaction":
 			clause = "null-action-entry-accepted"
+		case "nullentry":
+			clause = "null-entry-silently-dropped"
+		}
+		if c.Family == "nullentry" {
+			return []verdict{{clause, fmt.Sprintf("%s file: an empty rule entry (`- null`, i.e. a bare `-`) in %s has no action; the loader silently drops it instead of rejecting it like `- {}` (published schema accepts it: %v)", c.FK, c.Path, c.S)}}
 		}
 		return []verdict{{clause, fmt.Sprintf("%s file: rule entry %s in %s has no action but the loader accepts it", c.FK, c.Key, c.Path)}}
 	}
@@ -1264,7 +1318,7 @@ func main() {
 	os.MkdirAll("/var/tmp", 0o755)
 	scratch, err = os.MkdirTemp("/var/tmp", "verif.c20.")
 	if err != nil {
-		vx.Fatalf("scratch dir: %v", err)
+		fatalf("scratch dir: %v", err)
 	}
 	code := run(r)
 	os.RemoveAll(scratch)
@@ -1341,7 +1395,7 @@ func run(r *vx.Run) int {
 			switch c.Family {
 			case "path":
 				par := flags{true, true}
-				if len(c.p.steps) > 0 {
+				if c.p != nil && len(c.p.steps) > 0 {
 					par = ok[c.FK+":"+c.p.parent()]
 				}
 				me := flags{par.loaderOK && c.L, par.schemaOK && c.S}
@@ -1370,7 +1424,7 @@ func run(r *vx.Run) int {
 				if pre != "" {
 					preconditions = append(preconditions, pre)
 				}
-			case "inject", "alias", "free":
+			case "inject", "alias", "free", "merge":
 				b := ok[c.FK+":"+c.Path]
 				if !b.loaderOK {
 					blockedLoader++
@@ -1387,7 +1441,7 @@ func run(r *vx.Run) int {
 				for _, v := range judgeInjected(c, b.loaderOK, b.schemaOK) {
 					fail(c, v)
 				}
-			case "noaction", "nullaction":
+			case "noaction", "nullaction", "nullentry":
 				if !ok[c.FK+":<root>"].loaderOK {
 					blockedLoader++
 					continue
@@ -1405,8 +1459,7 @@ func run(r *vx.Run) int {
 		if n > 8 {
 			preconditions = preconditions[:8]
 		}
-		os.RemoveAll(scratch)
-		vx.Fatalf("%d template precondition failure(s) (documents that must load do not; value hints of the harness need updating):\n%s", n, strings.Join(preconditions, "\n"))
+		fatalf("%d template precondition failure(s) (documents that must load do not; value hints of the harness need updating):\n%s", n, strings.Join(preconditions, "\n"))
 	}
 
 	// evidence
@@ -1423,9 +1476,9 @@ func run(r *vx.Run) int {
 		lhist[c.Family+"/"+c.lclass]++
 		shist[c.Family+"/"+c.sclass]++
 	}
-	for _, want := range []string{"path", "inject", "alias", "free", "noaction", "nullaction"} {
+	for _, want := range []string{"path", "inject", "merge", "alias", "free", "noaction", "nullaction", "nullentry"} {
 		for _, c := range cases {
-			if c.Family == want && c.size >= 3 || c.Family == want && strings.HasSuffix(want, "action") {
+			if c.Family == want && c.size >= 24 || c.Family == want && strings.HasPrefix(want, "n") {
 				samples.Add(map[string]any{"id": c.ID, "yaml": c.YAML, "loader": c.lclass, "schema": c.sclass})
 				break
 			}
@@ -1497,6 +1550,7 @@ func run(r *vx.Run) int {
 		return l
 	}
 	n := int(loads.Load())
+	os.RemoveAll(scratch)
 	r.Finish(map[string]any{
 		"states":                              len(distinct),
 		"transitions":                         n,
@@ -1546,7 +1600,7 @@ func replay(r *vx.Run, fks []*fileKind) int {
 		Clause string  `json:"clause"`
 	}
 	if err := json.Unmarshal(detail, &d); err != nil {
-		vx.Fatalf("replay detail: %v", err)
+		fatalf("replay detail: %v", err)
 	}
 	c := &d.Case
 	for _, fk := range fks {
@@ -1556,7 +1610,7 @@ func replay(r *vx.Run, fks []*fileKind) int {
 		}
 	}
 	if c.fk == nil {
-		vx.Fatalf("replay: unknown file kind %q", c.FK)
+		fatalf("replay: unknown file kind %q", c.FK)
 	}
 	fmt.Printf("replaying %s\n  kind: %s\n--- document (%s)\n%s", witness, kind, c.FK, c.YAML)
 	execute(c)
@@ -1565,7 +1619,7 @@ func replay(r *vx.Run, fks []*fileKind) int {
 	switch c.Family {
 	case "path":
 		vs, _, _ = judgePath(c)
-	case "noaction", "nullaction":
+	case "noaction", "nullaction", "nullentry":
 		vs = judgeNoAction(c)
 	default:
 		b := &docCase{Family: "path", FK: c.FK, YAML: c.Base, fk: c.fk}
